@@ -13,7 +13,7 @@ RULE = ("exhaustive: attempts 1..A x every outcome sequence of that length over 
         "4 classes, thorough: A=6 and 5 classes. Oracle: a reference loop written from the statement gives the number "
         "of inner invocations, the sleeps and the outcome (first ok result by identity / final attempt's exception "
         "object by identity); arguments must reach the inner method unchanged each time. Invalid configurations must "
-        "raise at construction; neighbouring valid ones must not. Non-trivial: >=2 invocations were needed or a filter "
+        "raise at construction; neighbouring valid ones must not. Wrapped instances: three RetryingClients alive at once around different instances of one class whose operations are instance attributes (name sets differing from instance to instance), every offered operation called through every wrapper in both orders - the same reference decides, and dir() of the wrapper lists the operation. Non-trivial: >=2 invocations were needed or a filter "
         "stopped a retry.")
 MANIFEST = {
     "category": "exploration",
@@ -340,7 +340,78 @@ def check_history(case):
     return True, ["history", "calls=%d" % len(seqs)]
 
 
+class DynInner:
+    """a wrapped client whose operations are attributes of the INSTANCE (a stub, a namespace object, a client given an
+    extra per-instance helper): which names exist differs from one instance of the class to the next"""
+
+    def __init__(self, names):
+        self.seq, self.calls, self.raised = (), [], []
+        for n in names:
+            setattr(self, n, self._do)
+
+    _do = Inner._do
+
+
+NAMESETS = [("get",), ("get", "fetch"), ("lookup",), ("fetch", "lookup", "store"), ()]
+
+
+def instance_cases(tier, seed):
+    """several RetryingClients alive at once around different instances of one class"""
+    outcomes = [(1, 0), (2, 2, 0), (1, 1, 1), (0,), (4, 0)]
+    for a in NAMESETS:
+        for b in NAMESETS:
+            for c in (NAMESETS if tier == "thorough" else NAMESETS[:2]):
+                for oi, seq in enumerate(outcomes):
+                    for rf, dn in (((), ()), ((0,), ()), ((), (3,))):
+                        yield (3, [a, b, c], seq, rf, dn)
+
+
+def check_instances(case):
+    attempts, namesets, seq, rf, dn = case
+    kw = {}
+    if rf:
+        kw["retry_for"] = [CLASSES[j] for j in rf]
+    if dn:
+        kw["do_not_retry_for"] = [CLASSES[j] for j in dn]
+    saved = R.sleep
+    sleeps = []
+    R.sleep = sleeps.append
+    try:
+        inners = [DynInner(ns) for ns in namesets]
+        rcs = [R.RetryingClient(i, attempts=attempts, retry_delay=0.25, **kw) for i in inners]
+        n = 0
+        for rnd in (0, 1):
+            for wi in (range(len(rcs)) if rnd == 0 else reversed(range(len(rcs)))):
+                inner, rc = inners[wi], rcs[wi]
+                for name in namesets[wi]:
+                    n += 1
+                    padded = tuple(seq) + (0,) * attempts
+                    inner.seq, inner.calls, inner.raised = padded, [], []
+                    del sleeps[:]
+                    try:
+                        r = getattr(rc, name)("k")
+                        got = ("ok",) if r is OKV else ("wrong-value",)
+                    except Exception as e:  # noqa: BLE001
+                        got = ("exc", [i for i, x in enumerate(inner.raised) if x is e][:1])
+                    want_calls, want, _f = reference(attempts, padded, rf, dn)
+                    desc = "%s() on wrapper %d of %d RetryingClients around instances of one class offering %r; outcomes %r, attempts=%d retry_for=%r do_not_retry_for=%r" % (
+                        name, wi, len(rcs), namesets, [("ok" if o == 0 else CLASSES[o - 1].__name__) for o in seq], attempts,
+                        [CLASSES[j].__name__ for j in rf], [CLASSES[j].__name__ for j in dn])
+                    if len(inner.calls) != want_calls:
+                        raise Violation(["instances-invocations"], "inner invoked %d times, expected %d: %s" % (len(inner.calls), want_calls, desc))
+                    if (want[0] == "ok") != (got[0] == "ok") or (want[0] == "exc" and got != ("exc", [want_calls - 1])):
+                        raise Violation(["instances-outcome"], "outcome %r, expected %r: %s" % (got, want, desc))
+                    if sleeps != [0.25] * (want_calls - 1):
+                        raise Violation(["instances-sleeps"], "sleeps %r, expected %r: %s" % (sleeps, [0.25] * (want_calls - 1), desc))
+                    if name not in dir(rc):
+                        raise Violation(["instances-dir"], "dir() of the wrapper lacks %r: %s" % (name, desc))
+    finally:
+        R.sleep = saved
+    return n > 0 and len({tuple(x) for x in namesets}) > 1, ["instances", "calls=%d" % min(n, 5)]
+
+
 PARTS = [
+    Part("wrapped-instances", "enum", check_instances, cases=instance_cases, exhaustive=True),
     Part("decision-table", "enum", check, cases=cases, exhaustive=True, distinct_by_construction=True),
     Part("configurations", "enum", check_config, cases=config_cases, shards={"quick": 1, "thorough": 1}, exhaustive=True),
     Part("dunder", "enum", check_dunder, cases=dunder_cases, shards={"quick": 1, "thorough": 1}, exhaustive=True),
